@@ -23,9 +23,10 @@ ChunkOk(e, g) ==       \* e: Sem's [out, err]; g: observed
     /\ (e.err.kind # "" => e.err.line = g.line)
     /\ g.stack = 0
     /\ g.locks = 0
+    /\ g.host_ok            \* the embedder can still read every name of the module
 
 JudgeSession(r) ==
-    LET s == RunSession(r.chunks, 50, FALSE) IN
+    LET s == RunSessionS(r.chunks, r.static, 50) IN
     IF ~SessionInDomain(s.res) THEN "skip"
     ELSE IF Len(s.res) = Len(r.res) /\ \A i \in 1..Len(s.res) : ChunkOk(s.res[i], r.res[i])
          THEN "ok" ELSE "bad"
@@ -53,6 +54,6 @@ Final == (l = Len(Rec) + 1) => PrintT(<<"STATS", ToJson([n |-> Len(Rec), skipped
 
 Explain == \A i \in 1..Len(Rec) :
     (Rec[i].a = "session") =>
-        LET s == RunSession(Rec[i].chunks, 50, FALSE) IN
+        LET s == RunSessionS(Rec[i].chunks, Rec[i].static, 50) IN
         PrintT(<<"SEM", ToJson([id |-> Rec[i].id, res |-> s.res])>>)
 =============================================================================
